@@ -11,6 +11,7 @@ import (
 	"os"
 	"os/exec"
 	"regexp"
+	"strconv"
 	"strings"
 	"sync"
 	"time"
@@ -64,13 +65,74 @@ func RunSpecs(r *ev.Run, id string, filter func(conc.Spec) bool) {
 func run(r *ev.Run) {
 	r.Rule("E2: for every scenario (k datagrams pushed through the real Serve loop of a socket-less listener around the chains [server_id,file,range,dns] / [server_id,file,prefix,dns]; buffers recycled LIFO by the shim pool; optional concurrent reload of the static lease file) ALL schedules with at most 2 (thorough 3) preemptions - one less for scenarios with a third/fourth thread - at statement granularity are executed; oracle = outcome (replies per transaction id + final lease state) equals that of some sequential order computed with the implementation itself, plus per-reply oracles (reply belongs to its request, server id, lifetimes), lease-table/bitmap consistency, no deadlock, no lock left held. E4: the same scenarios free-running under the Go race detector. Class = scenario / distinct outcome.")
 	r.Assume("at most 3 concurrent datagrams; third-party code (logrus, database/sql, sqlite, the DHCP codec) executes atomically between scheduling points; the race detector only sees the executions that actually ran")
+	r.Rule("Wide scenarios: n = 1200 (thorough 6000) DISCOVERs / SOLICITs of n different clients, pool with room for all, handled (a) one at a time and (b) all in flight at once (round-robin schedule, one statement each in turn, under the cooperative scheduler): the number of replies, of answered transactions and of distinct addresses/prefixes must be equal, and the per-reply and state oracles hold.")
 	RunSpecs(r, "C16", nil)
+	RunWide(r, "C16")
 	racePass(r)
+}
+
+// WideSizes are the numbers of simultaneously in-flight datagrams of the wide scenarios.
+func WideSizes(thorough bool) []int {
+	if thorough {
+		return []int{1200, 6000}
+	}
+	return []int{1200}
+}
+
+// RunWide runs the wide scenarios in worker processes under check id.
+func RunWide(r *ev.Run, id string) {
+	if os.Getenv("VERIF_SCHED") != "1" {
+		r.Capped("wide scenarios skipped: binary not built with the instrumentation overlay")
+		return
+	}
+	var wg sync.WaitGroup
+	for _, proto := range []int{4, 6} {
+		for _, n := range WideSizes(!r.Quick()) {
+			proto, n := proto, n
+			wg.Add(1)
+			go func() {
+				defer wg.Done()
+				res := reg.Spawn(r, "C16", 20*time.Minute, "wide", id, fmt.Sprint(proto), fmt.Sprint(n))
+				if res.Died || res.Hung {
+					panic(fmt.Sprintf("wide worker v%d/%d failed (checker error, not a verdict): %s", proto, n, res.Output))
+				}
+			}()
+		}
+	}
+	wg.Wait()
+}
+
+func wideOne(r *ev.Run, id string, proto, n int) {
+	sp := conc.WideSpec(proto, n)
+	defer reg.OpBegin(fmt.Sprintf("wide scenario %s", sp.Name))()
+	serial, wide, viols, steps, eng := sp.Wide()
+	if eng != "" {
+		panic("E2 engine error in " + sp.Name + ": " + eng)
+	}
+	if steps < 20*n {
+		panic("E2 engine error in " + sp.Name + ": too few scheduling points (instrumentation missing?)")
+	}
+	c := map[string]interface{}{"wide": map[string]int{"proto": proto, "n": n}}
+	r.EvalN("wide/"+sp.Name, 1)
+	r.Add("schedule_points", int64(steps))
+	r.Add("schedules", 1)
+	r.Eval("outcome/" + sp.Name + "/" + wide)
+	r.Sample("wide/"+sp.Name, map[string]interface{}{"scenario": sp.Name, "one_at_a_time": serial, "all_in_flight": wide, "thread_resumptions": steps})
+	for _, v := range viols {
+		r.Violate(id+"/wide/"+sp.Name+"/"+v.Sig, fmt.Sprintf("%d datagrams in flight at once: %s", n, v.What), c)
+	}
+	if serial != wide {
+		r.Violate(id+"/wide/"+sp.Name+"/not-serialisable", fmt.Sprintf("handled one at a time: %s; all %d in flight at once: %s", serial, n, wide), c)
+	}
 }
 
 func worker(args []string) int {
 	r := ev.New("C16", reg.Tier, "model_checking")
 	switch args[0] {
+	case "wide":
+		proto, _ := strconv.Atoi(args[2])
+		n, _ := strconv.Atoi(args[3])
+		wideOne(r, args[1], proto, n)
 	case "sched":
 		id, name := args[1], args[2]
 		for _, sp := range conc.Specs(true) {
@@ -227,6 +289,13 @@ func replay(r *ev.Run, raw json.RawMessage) {
 	var sc struct {
 		Scenario string `json:"scenario"`
 		Schedule []int  `json:"schedule"`
+	}
+	var w struct {
+		Wide *struct{ Proto, N int } `json:"wide"`
+	}
+	if json.Unmarshal(raw, &w) == nil && w.Wide != nil {
+		wideOne(r, "C16", w.Wide.Proto, w.Wide.N)
+		return
 	}
 	if json.Unmarshal(raw, &sc) != nil || sc.Scenario == "" {
 		r.Violate("C16/replay/bad-file", "not a schedule replay (race reports are not replayable)", nil)
